@@ -92,7 +92,9 @@ func (c04) Gen(seed uint64, run int, tier string) *Plan {
 			sz := []int{0, 1, 2, 100, 4096, 70000}[r.Intn(6)]
 			p.Actions = append(p.Actions, Action{Kind: "upload", A: o, B: d, D: sz})
 		case x < 75:
-			p.Actions = append(p.Actions, Action{Kind: "checkin", B: d})
+			// (C > 0: the request carries the job request more than once - merged or retransmitted
+			// package queues; the answer must still be one batch and nothing may get lost)
+			p.Actions = append(p.Actions, Action{Kind: "checkin", B: d, C: []int{0, 0, 0, 1, 2}[r.Intn(5)]})
 		case x < 97:
 			if p.Policy.Name != "atomic" {
 				p.Actions = append(p.Actions, Action{Kind: "par", A: 2 + r.Intn(3)})
@@ -227,6 +229,10 @@ func (c04) Exec(p *Plan, dir string) *Result {
 		case "checkin":
 			di := a.B % len(w.Demons)
 			d := w.Demons[di]
+			for k := 0; k < a.C; k++ {
+				d.Out = append(d.Out, world.Pkg{Cmd: world.CmdGetJob})
+				res.Probe("repeated-job-requests")
+			}
 			c, ts := w.Checkin(d)
 			st.checkBatch(di, c, ts, true)
 		case "par":
